@@ -169,6 +169,11 @@ where
     W: Write + Send,
 {
     fn drop(&mut self) {
+        // a writer that was never used must still wait for its turn before letting its
+        // successor go, otherwise the successor's data overtakes the predecessors'
+        if let Some(v) = self.trigger.take() {
+            v.recv().ok();
+        }
         self.on_finish.send(()).ok();
     }
 }
